@@ -30,11 +30,19 @@ type OracleResult struct {
 	Samples     []string       `json:"samples"`
 	Failures    []Failure      `json:"failures"`
 	NFailures   int            `json:"n_failures"`
+	perClass    map[string]int
 }
 
+// fail records a failure.  The list kept for the verdict is capped PER CLASS (8 each,
+// 400 in all): hits of a listed known finding must never crowd an unlisted class out
+// of the list the orchestrator judges.
 func (o *OracleResult) fail(f Failure) {
 	o.NFailures++
-	if len(o.Failures) < 20 {
+	if o.perClass == nil {
+		o.perClass = map[string]int{}
+	}
+	o.perClass[f.Class]++
+	if o.perClass[f.Class] <= 8 && len(o.Failures) < 400 {
 		o.Failures = append(o.Failures, f)
 	}
 }
